@@ -2,7 +2,7 @@
     Model of the C++ unsigned arithmetic: every operation that can leave the word wraps explicitly. *)
 From Coq Require Import NArith List.
 Import ListNotations.
-Open Scope N_scope.
+Local Open Scope N_scope.
 
 (** [wrap w x] = x mod 2^w, written with [land] (linear in the size of x once extracted). *)
 Definition wrap (w x : N) : N := N.land x (N.ones w).
